@@ -1,5 +1,6 @@
 import Driver.Echo
 import Driver.Lru
+import Driver.CacheLayer
 
 namespace Driver
 
@@ -9,6 +10,7 @@ def dispatch (dom : String) (ops : Array String) : Array String :=
   match dom with
   | "echo" => Echo.runCase ops
   | "lru" => Lru.runCase ops
+  | "cachelayer" => CacheLayer.runCase ops
   | _ => ops.map (fun _ => "unknown-domain")
 
 end Driver
